@@ -27,6 +27,8 @@ struct Cfg18 {
     warnings_are_errors: bool,
     lex_mod_name: Option<String>,
     lex_case_insensitive: Option<bool>,
+    /// lexer builder: tokens the grammar does not know are errors (allow_missing_tokens_in_parser(false) + warnings_are_errors(true))
+    lex_strict: bool,
 }
 
 fn kind_str(k: AKind) -> &'static str {
@@ -51,7 +53,7 @@ fn kind_from(s: &str) -> AKind {
 impl Cfg18 {
     fn to_json(&self) -> Value {
         json!({"kind": kind_str(self.kind), "recoverer": self.recoverer, "fixed_ints": self.fixed_ints, "edition": self.edition, "vis": self.vis, "mod_name": self.mod_name,
-               "error_on_conflicts": self.error_on_conflicts, "warnings_are_errors": self.warnings_are_errors, "lex_mod_name": self.lex_mod_name, "lex_case_insensitive": self.lex_case_insensitive})
+               "error_on_conflicts": self.error_on_conflicts, "warnings_are_errors": self.warnings_are_errors, "lex_mod_name": self.lex_mod_name, "lex_case_insensitive": self.lex_case_insensitive, "lex_strict": self.lex_strict})
     }
     fn from_json(v: &Value) -> Cfg18 {
         Cfg18 {
@@ -65,6 +67,7 @@ impl Cfg18 {
             warnings_are_errors: v["warnings_are_errors"].as_bool().unwrap_or(false),
             lex_mod_name: v["lex_mod_name"].as_str().map(String::from),
             lex_case_insensitive: v["lex_case_insensitive"].as_bool(),
+            lex_strict: v["lex_strict"].as_bool().unwrap_or(false),
         }
     }
 }
@@ -152,6 +155,9 @@ pub fn ctstep_main(gp: &str, lp: &str, outdir: &str, cfg_json: &str) {
         }
         if let Some(c) = cfg.lex_case_insensitive {
             lb = lb.case_insensitive(c);
+        }
+        if cfg.lex_strict {
+            lb = lb.allow_missing_tokens_in_parser(false).warnings_are_errors(true);
         }
         lb.build().map(|_| ()).map_err(|e| format!("{e}"))
     });
@@ -247,7 +253,7 @@ impl Check for C18 {
         tier.sz(60, 800)
     }
     fn required_counters(&self, _t: Tier) -> Vec<&'static str> {
-        vec!["histories", "steps", "builds_skipped", "builds_regenerated", "builds_failed", "option_changes", "failing_builds_after_good_build", "files_compared_with_clean_build", "same_token_edits_at_the_output_time_stamp"]
+        vec!["histories", "steps", "builds_skipped", "builds_regenerated", "builds_failed", "option_changes", "failing_builds_after_good_build", "files_compared_with_clean_build", "same_token_edits_at_the_output_time_stamp", "failing_lexer_builds"]
     }
     fn case_cap_s(&self, _t: Tier) -> u64 {
         300
@@ -262,7 +268,7 @@ impl Check for C18 {
         let lp = format!("{dir}/g.l");
         let outd = format!("{dir}/out");
         let mut g = valid_grammar(&mut rng);
-        let mut cfg = Cfg18 { kind: g.kind, recoverer: None, fixed_ints: None, edition: 2, vis: rng.below(6) as u8, mod_name: None, error_on_conflicts: false, warnings_are_errors: false, lex_mod_name: None, lex_case_insensitive: None };
+        let mut cfg = Cfg18 { kind: g.kind, recoverer: None, fixed_ints: None, edition: 2, vis: rng.below(6) as u8, mod_name: None, error_on_conflicts: false, warnings_are_errors: false, lex_mod_name: None, lex_case_insensitive: None, lex_strict: false };
         let render = |g: &AG, rng: &mut Rng| render_fancy(g, rng, &YOpts::plain()).text;
         let mut gtext = render(&g, &mut rng);
         let mut ltext = lexer_for(&g);
@@ -284,9 +290,9 @@ impl Check for C18 {
             let op = if step == 0 {
                 0
             } else if !grammar_valid || !lexer_valid {
-                rng.weighted(&[6, 8, 4, 10, 4, 2, 40, 4])
+                rng.weighted(&[6, 8, 4, 10, 4, 2, 40, 4, 3])
             } else {
-                rng.weighted(&[14, 14, 10, 26, 14, 8, 4, 14])
+                rng.weighted(&[14, 14, 10, 26, 14, 8, 4, 14, 8])
             };
             match op {
                 0 => history.push("build".into()),
@@ -311,7 +317,7 @@ impl Check for C18 {
                 }
                 3 => {
                     out.count("option_changes", 1);
-                    let which = rng.weighted(&[2, 2, 2, 5, 2, 2, 2, 2, 2, 2]);
+                    let which = rng.weighted(&[2, 2, 2, 5, 2, 2, 2, 2, 2, 2, 3]);
                     match which {
                         0 => cfg.recoverer = *rng.pick(&[None, Some(true), Some(false)]),
                         1 => {
@@ -329,7 +335,8 @@ impl Check for C18 {
                         6 => cfg.error_on_conflicts = !cfg.error_on_conflicts,
                         7 => cfg.warnings_are_errors = !cfg.warnings_are_errors,
                         8 => cfg.lex_mod_name = if cfg.lex_mod_name.is_some() { None } else { Some(format!("lm{}_l", rng.below(3))) },
-                        _ => cfg.lex_case_insensitive = *rng.pick(&[None, Some(true), Some(false)]),
+                        9 => cfg.lex_case_insensitive = *rng.pick(&[None, Some(true), Some(false)]),
+                        _ => cfg.lex_strict = !cfg.lex_strict,
                     }
                     history.push(format!("option#{which}"));
                 }
@@ -399,6 +406,14 @@ impl Check for C18 {
                     }
                     history.push(if tie { "edit-body-same-tokens@tie".into() } else { "edit-body-same-tokens".into() });
                 }
+                8 => {
+                    // the lexer gains a named rule for a token the grammar does not know: fine by default, a
+                    // failing lexer build under the strict lexer settings
+                    ltext = format!("{}zzq{} 'EXTRATOK'\n", lexer_for(&g), rng.below(1000));
+                    std::fs::write(&lp, &ltext).ok();
+                    lexer_valid = true;
+                    history.push("edit-lexer-extra-token".into());
+                }
                 _ => {
                     // repair both
                     cfg.kind = g.kind;
@@ -442,7 +457,8 @@ impl Check for C18 {
             };
             // (unset recoverer / serialisation format mean the defaults: CPCT+ / variable-sized integers)
             let pcfg = json!([kind_str(cfg.kind), cfg.recoverer.unwrap_or(true), cfg.fixed_ints.unwrap_or(false), cfg.edition, cfg.vis, cfg.mod_name, cfg.error_on_conflicts, cfg.warnings_are_errors]);
-            if inc.raw.contains("panic") {
+            // (the lexer builder's documented way of refusing missing tokens is a panic: only a panic the clean build does not share is reported)
+            if inc.raw.contains("PARSER panic") || (inc.raw.contains("LEXER panic") && !clean.raw.contains("LEXER panic")) {
                 out.violate("panic", &["ct-build"], format!("incremental build panicked: {}", inc.raw.trim()), detail(String::new()));
             }
             if inc.parser_ok != clean.parser_ok || (inc.parser_ok && inc.lexer_ok != clean.lexer_ok) {
@@ -483,6 +499,15 @@ impl Check for C18 {
                         (a, b) => out.violate("generated-file-missing", &[], format!("{f}: incremental present={} clean present={}", a.is_ok(), b.is_ok()), detail(String::new())),
                     }
                 }
+                // a lexer build that fails must not leave an earlier lexer module behind (a clean build leaves none)
+                if !clean.lexer_ok {
+                    out.count("failing_lexer_builds", 1);
+                    let inc_has = std::path::Path::new(&format!("{outd}/g.l.rs")).exists();
+                    let clean_has = std::path::Path::new(&format!("{clean_out}/g.l.rs")).exists();
+                    if inc_has && !clean_has {
+                        out.violate("stale-generated-file", &["lexer"], "the lexer build failed but a generated lexer from an earlier configuration is still in the output directory (a clean build leaves none)".into(), detail(inc.raw.trim().to_string()));
+                    }
+                }
                 // regenerated flag
                 let want_regen = match &last_ok {
                     None => true,
@@ -510,7 +535,7 @@ impl Check for C18 {
                 last_ok = Some((gtext.clone(), pcfg.clone()));
                 // lexer output untouched iff nothing it depends on changed
                 if clean.lexer_ok {
-                    let lcfg = json!([cfg.edition, cfg.vis, cfg.lex_mod_name, cfg.lex_case_insensitive]);
+                    let lcfg = json!([cfg.edition, cfg.vis, cfg.lex_mod_name, cfg.lex_case_insensitive, cfg.lex_strict]);
                     let lex_id_after = file_id(&format!("{outd}/g.l.rs"));
                     let unchanged = matches!(&last_lexer_ok, Some((lt, gt, c)) if *lt == ltext && *gt == gtext && *c == lcfg);
                     if unchanged && lex_id_before.is_some() && lex_id_before != lex_id_after {
